@@ -98,20 +98,29 @@ class C01(Prop):
             lsfA = g.rand_lsf(0x0005); lsfB = g.rand_lsf(0x0005)
             keep = rng.sample(range(6), rng.randrange(1, 6))
             lines.append("dec_reset"); exp.append(None)          # back to waiting for link setup (the collection above ended in stream mode)
+            # what the documented collection does, simulated: the 30-byte buffer still holds the LSF reassembled above, the mask is empty
+            buf = bytearray(lsf); mask = 0
             for k, n in enumerate(keep):
                 sb = S.stream_frame_bits(lsfA, n, k, bytes(rng.randrange(256) for _ in range(16)))
+                buf[5 * n:5 * n + 5] = lsfA[5 * n:5 * n + 5]; mask |= 1 << n
                 add(1, S.soft(sb, 7), None)
             lines.append("dec_reset"); exp.append(None)
             order = list(range(6)); rng.shuffle(order)
-            seen = set(keep)
+            streaming = False
             for k, n in enumerate(order):
-                sb = S.stream_frame_bits(lsfB, n, k, bytes(rng.randrange(256) for _ in range(16)))
+                pl = bytes(rng.randrange(256) for _ in range(16))
+                sb = S.stream_frame_bits(lsfB, n, k, pl)
                 lich6 = list(lsfB[5 * n:5 * n + 5]) + [n << 5]
-                seen.add(n)
-                # the collection mask still holds A's positions after reset(): the set completes as soon as A's and B's positions cover 0..5;
-                # a mixed buffer fails the CRC (cost 128) and keeps collecting; with all six of B stored the LSF must be reported
-                if k == 5:
-                    add(1, S.soft(sb, 7), {"kind": "lich_last_after_partial", "calls": [(1, lich6), (0, list(lsfB))], "result": 1, "cost": 0, "mode": 1})
+                if streaming:      # the set completed early (A's slots happened to equal B's): these are ordinary stream frames now
+                    add(1, S.soft(sb, 7), {"kind": "stream_after_late_entry", "calls": [(2, list(k.to_bytes(2, "big") + pl))], "result": 1, "cost": 0, "mode": 1})
+                    continue
+                buf[5 * n:5 * n + 5] = lsfB[5 * n:5 * n + 5]; mask |= 1 << n
+                # the mask still holds A's positions after reset(): the set completes as soon as A's and B's positions cover 0..5; a mixed
+                # buffer fails the CRC and keeps collecting; as soon as the buffer is a CRC-valid LSF it must be reported - at the latest when
+                # all six fragments of B are stored
+                if mask == 63 and S.crc16(bytes(buf)) == 0:
+                    add(1, S.soft(sb, 7), {"kind": "lich_last_after_partial", "calls": [(1, lich6), (0, list(buf))], "result": 1, "cost": 0, "mode": 1})
+                    streaming = True; mask = 0
                 else:
                     add(1, S.soft(sb, 7), {"kind": "lich_after_partial", "calls": [(1, lich6)], "result": 3, "cost": None, "mode": 0})
             fn = rng.randrange(0x8000); pl = bytes(rng.randrange(256) for _ in range(16))
